@@ -97,6 +97,25 @@ Theorem C06_a_standalone_dotted_quad_is_matched_as_a_whole :
   exists c', match_at s IPV4_RX i = Some ((i + length t)%nat, c').
 Proof. exact Ipv4Token.ipv4_engine_replaces_the_whole_token. Qed.
 
+(* Over a whole line: the leftmost-first scan under re.finditer / re.sub (RxFacts.finditer, started anywhere at or before the token with enough fuel) reports
+   EVERY standalone dotted quad of the line, with its exact extent, and reports nothing but standalone dotted quads.  The spans the IPv4 pass rewrites are thus
+   exactly the standalone valid dotted-quad tokens of the line -- both halves of the property for IPv4, for every line. *)
+Theorem C06_finditer_reports_every_standalone_dotted_quad :
+  forall (s t : list chr) (a : nat),
+  Ipv4Token.dotted_quad t -> RxLang.occ s t a -> (a + length t <= length s)%nat ->
+  (a = 0%nat \/ ((1 <= a)%nat /\ exists x, nth_error s (a - 1) = Some x /\ in_cset x Ipv4Token.ENC = true)) ->
+  (eol s (a + length t) = true \/ exists x, nth_error s (a + length t) = Some x /\ in_cset x Ipv4Token.ENC = true) ->
+  forall fuel i : nat, (i <= a)%nat -> (a - i < fuel)%nat -> In (a, (a + length t)%nat) (finditer s fuel IPV4_RX i).
+Proof. exact Ipv4Token.ipv4_finditer_reports_every_standalone_dotted_quad. Qed.
+
+Theorem C06_finditer_reports_only_standalone_dotted_quads :
+  forall (s : list chr) (fuel i a b : nat), (i <= length s)%nat ->
+  In (a, b) (finditer s fuel IPV4_RX i) ->
+  (a = 0%nat \/ ((1 <= a)%nat /\ exists x, nth_error s (a - 1) = Some x /\ Ipv4Token.enclosing x)) /\
+  (eol s b = true \/ exists x, nth_error s b = Some x /\ Ipv4Token.enclosing x) /\
+  Ipv4Token.dotted_quad (RxLang.sub s a b).
+Proof. exact Ipv4Token.ipv4_finditer_reports_only_standalone_dotted_quads. Qed.
+
 Theorem C06_dotted_quad_parts_are_numerals_up_to_255 :
   forall t : list chr, Ipv4Token.octet_core t -> (Ipv4Token.dec_value t <= 255)%N /\ Forall Ipv4Token.dig t.
 Proof. exact Ipv4Token.octet_core_value. Qed.
@@ -112,3 +131,5 @@ Print Assumptions C06_dotted_quad_parts_are_numerals_up_to_255.
 Print Assumptions C06_ipv4_match_is_a_whole_token.
 Print Assumptions C06_ipv6_match_is_delimited.
 Print Assumptions C06_a_standalone_dotted_quad_is_matched_as_a_whole.
+Print Assumptions C06_finditer_reports_every_standalone_dotted_quad.
+Print Assumptions C06_finditer_reports_only_standalone_dotted_quads.
